@@ -29,10 +29,10 @@ STATIC = {
             "not_proved": ["C02s_decoder_eq_spec_string / C02s_api_outcomes (Props/C02s.lean): the returned STRING is the structural rendering of the molecule of Spec/Derivation.lean, and rejection coincides with the grammar's, unless the body exhausts the stack (the spec has no recursion limit; since the repair of F2 the API function then raises DecoderError: C02s_api_reject_iff)"]},
     "C03": {"use_props": ["C03p", "C01w", "C03s", "C05e"], "not_proved": ["C03s_roundtrip_parsed / C03s_bonds_iff (Props/C03s.lean) state the round trip on the OUTPUT STRING: the library's parser reads decoder(encoder(s)) back with the same atoms and the same bonds as the prepared graph of s; hypotheses left: every ring span / branch length < 16^3, nesting depth < recursion budget, input length <= 10^4300, <= 99 ring bonds",
                                                    "aromatic inputs: C05e_aromatic_end_to_end composes parser, kekulization and round trip; 'the matching returned is perfect' is derived on bipartite delocalisation subgraphs and an explicit hypothesis otherwise (finding F9)"]},
-    "C04": {"use_props": ["C03", "C10r", "C04h"], "not_proved": ["C04_handedness_preserved / C04_marks_preserved (Props/C04h.lean) state the property in semantic form on the two parsed graphs (handedness = tag xor parity of the neighbour order); hypotheses as C03p_roundtrip_strings plus <= 99 rings",
-                                                  "for aromatic input a '/' or '\\' mark is shown preserved on bonds that are single after kekulization (the kekulize lemmas do not exclude that phase 2 raises an explicitly written single bond between two aromatic atoms: on non-bipartite systems the matching is not sound, finding F9); for input without aromatic atoms the bond records are literally equal (C04_marks_preserved_nonaromatic)"]},
-    "C05": {"use_props": ["C05c", "C03p", "C05e"], "not_proved": ["completeness is proved for BIPARTITE delocalisation subgraphs (all rings even: C05_bipartite_complete, C05_bipartite_decides, C05_kekulize_complete_bipartite); for non-bipartite systems it is false in general (finding F9) and decided by bounded search, as is atom-order independence",
-                           "unconditional soundness of find_perfect_matching is FALSE (C05_soundness_false, finding F9); proved: sound on bipartite graphs, sound whenever every augmenting path found is simple, kekulize sound given a perfect matching",
+    "C04": {"use_props": ["C03", "C10r", "C04h", "C04k"], "not_proved": ["C04_handedness_preserved / C04_marks_preserved (Props/C04h.lean) state the property in semantic form on the two parsed graphs (handedness = tag xor parity of the neighbour order); hypotheses as C03p_roundtrip_strings plus <= 99 rings",
+                                                  "C04_marks_preserved_all / C04_every_mark_found_again (Props/C04k.lean) drop the guard of C04_marks_preserved: kekulization touches only aromatic bonds (C05_sigma_skeleton_unconditional, from the invariant that find_perfect_matching - sound or not - pairs only adjacent vertices), so every '/' and '\\' mark of the input is found again, for aromatic and non-aromatic input alike"]},
+    "C05": {"use_props": ["C05c", "C03p", "C05e", "C05k"], "not_proved": ["completeness is proved for BIPARTITE delocalisation subgraphs (all rings even: C05_bipartite_complete, C05_bipartite_decides, C05_kekulize_complete_bipartite); for non-bipartite systems it is false in general (finding F9) and decided by bounded search, as is atom-order independence",
+                           "unconditional soundness of find_perfect_matching is FALSE (C05_soundness_false, finding F9); proved: sound on bipartite graphs, sound whenever every augmenting path found is simple, kekulize sound given a perfect matching; UNCONDITIONALLY (also on the unsound runs): the result pairs only adjacent vertices (C05_matching_edges), hence the sigma skeleton, hydrogens, charges and every non-aromatic bond are unchanged and every aromatic bond becomes single or double (C05_sigma_skeleton_unconditional, C05_sigma_skeleton_end_to_end); only the 'exactly one double bond per atom that needs one' clause needs the matching to be perfect (C05_one_double_needs_matching)",
                            ]},
     "C06": {"gen": ["GenEq3"]}, "C07": {"use_props": ["C01", "C08", "C07f"], "gen": ["GenEq3"],
                        "not_proved": ["C07_no_error: a string over the alphabet nested deeper than the recursion budget is rejected (residual finding F2r; C08_deep_nesting_rejected); proved without exception below the budget: C07_no_error_shallow"]},
